@@ -24,6 +24,7 @@ import (
 	"strings"
 	"testing"
 	"time"
+	"unsafe"
 
 	"github.com/rcrowley/go-metrics"
 )
@@ -50,6 +51,31 @@ func (t *cbTape) add(kind string, b []byte, width int) {
 		return
 	}
 	t.cells = append(t.cells, kind+":"+hex.EncodeToString(b))
+}
+
+// multiset difference of two tapes, "-cell" only in a, "+cell" only in b (a cause signature for findings)
+func cbDiff(a, b []string) string {
+	cnt := map[string]int{}
+	for _, c := range a {
+		cnt[c]++
+	}
+	for _, c := range b {
+		cnt[c]--
+	}
+	var out []string
+	for c, n := range cnt {
+		for ; n > 0; n-- {
+			out = append(out, "-"+c)
+		}
+		for ; n < 0; n++ {
+			out = append(out, "+"+c)
+		}
+	}
+	sort.Strings(out)
+	if len(out) > 8 {
+		out = append(out[:8], "...")
+	}
+	return strings.Join(out, " ")
 }
 
 func cbCanon(cells []string) string {
@@ -632,26 +658,45 @@ func cbRun(rec *vRec, s *cbSubject, sum *cbSummary) {
 		}
 		return // values the sizing pass refuses are outside the domain (first encode fails)
 	}
-	ev := kv{"name": s.name, "kind": s.kind, "ver": int(s.version), "hasmap": s.hasMap, "fill": s.fill,
+	shape := cbShape(s.value)
+	if r, ok := s.value.(*request); ok {
+		shape = cbShape(r.body)
+	}
+	ev := kv{"name": s.name, "kind": s.kind, "ver": int(s.version), "hasmap": s.hasMap, "fill": s.fill, "shape": shape,
 		"eerr": eerr, "epanic": epanic,
 		"preplen": prep.total, "reallen": real.total, "buflen": len(buf),
 		"prepext": cbExtents(prep.pushes, false), "realext": cbExtents(real.pushes, true),
 		"fields":  cbPushRows(real.pushes, true),
 		"tprepkw": cbCanon(prep.tape.kw), "trealkw": cbCanon(real.tape.kw), "treal": cbCanon(real.tape.cells),
 		"ncells": len(real.tape.cells), "digest": cbDigest(buf),
-		"derr": "", "dpanic": false, "dend": 0, "tdec": "",
+		"derr": "", "dpanic": false, "dend": 0, "tdec": "", "decver": int(s.version),
 		"rerr": "", "rpanic": false, "relen": 0, "redigest": "", "treenc": "",
-		"d2err": "", "d2panic": false, "tdec2": "", "d2end": 0}
+		"d2err": "", "d2panic": false, "tdec2": "", "d2end": 0, "decdiff": "", "rediff": ""}
 	if eerr == "" {
 		pl, vd, asEnc := s.fresh()
 		tdec, dend, derr, dpanic := cbDecode(buf, pl, vd, s.version)
 		ev["derr"], ev["dpanic"], ev["dend"], ev["tdec"] = derr, dpanic, dend, cbCanon(tdec.cells)
+		ev["decdiff"] = cbDiff(real.tape.cells, tdec.cells)
 		if derr == "" {
+			// the version the decoded value reports; restored afterwards so that the remaining clauses judge the rest of the value
+			var decBody protocolBody
+			if pb, ok := asEnc.(protocolBody); ok {
+				decBody = pb
+			} else if fe, ok := asEnc.(*cbFramedEnc); ok {
+				decBody = fe.r.body
+			}
+			if decBody != nil {
+				ev["decver"] = int(decBody.version())
+				if decBody.version() != s.version {
+					cbSetVersion(decBody, s.version)
+				}
+			}
 			if s.prepare != nil {
 				s.prepare(asEnc, s.value)
 			}
 			buf2, _, real2, rerr, rpanic, _ := cbEncode(asEnc)
 			ev["rerr"], ev["rpanic"], ev["relen"], ev["redigest"], ev["treenc"] = rerr, rpanic, len(buf2), cbDigest(buf2), cbCanon(real2.tape.cells)
+			ev["rediff"] = cbDiff(real.tape.cells, real2.tape.cells)
 			if rerr == "" {
 				pl2, vd2, _ := s.fresh()
 				tdec2, d2end, d2err, d2panic := cbDecode(buf2, pl2, vd2, s.version)
@@ -695,7 +740,25 @@ var (
 	cbMsgSetT   = reflect.TypeOf(MessageSet{})
 	cbMessageT  = reflect.TypeOf(Message{})
 	cbKVersionT = reflect.TypeOf(KafkaVersion{})
+	cbBrokerT   = reflect.TypeOf(Broker{})
+	cbUpsertT   = reflect.TypeOf(AlterUserScramCredentialsUpsert{})
 )
+
+// state that is not part of the value (caches, the push field object of a record, ...)
+var cbNotValue = map[string]bool{"compressedCache": true, "compressedSize": true, "compressedRecords": true,
+	"recordsLen": true, "length": true, "recordsType": true}
+
+// a settable view of a struct field, exported or not (the harness lives in the package)
+func cbField(v reflect.Value, i int) reflect.Value {
+	f := v.Field(i)
+	if f.CanSet() {
+		return f
+	}
+	if !f.CanAddr() {
+		return reflect.Value{}
+	}
+	return reflect.NewAt(f.Type(), unsafe.Pointer(f.UnsafeAddr())).Elem()
+}
 
 func (f *cbFill) pick(n int) int {
 	switch f.mode {
@@ -818,6 +881,19 @@ func (f *cbFill) value(v reflect.Value) {
 	case cbMessageT:
 		v.Set(reflect.ValueOf(*f.message(f.magic)))
 		return
+	case cbUpsertT: // PBKDF2: a known mechanism and an iteration count that terminates
+		u := AlterUserScramCredentialsUpsert{Name: f.str(), Mechanism: ScramMechanismType(1 + f.pick(2)),
+			Iterations: int32(1 + f.pick(3)*2047), Salt: f.bytes(), Password: f.bytes()}
+		v.Set(reflect.ValueOf(u))
+		return
+	case cbBrokerT:
+		b := Broker{id: int32(f.intOf(32)), addr: []string{"localhost:9092", "kafka-1.example:19092", "10.0.0.1:1"}[f.pick(3)]}
+		if f.pick(2) == 1 {
+			r := f.str()
+			b.rack = &r
+		}
+		reflect.NewAt(t, unsafe.Pointer(v.UnsafeAddr())).Elem().Set(reflect.ValueOf(&b).Elem())
+		return
 	}
 	switch t.Kind() {
 	case reflect.Bool:
@@ -831,7 +907,11 @@ func (f *cbFill) value(v reflect.Value) {
 	case reflect.Int64:
 		v.SetInt(f.intOf(64))
 	case reflect.Int:
-		v.SetInt(f.intOf(31))
+		if t.Name() != "int" { // enum-like named ints (AclOperation, ...) travel as INT8
+			v.SetInt(f.intOf(8))
+		} else {
+			v.SetInt(f.intOf(31))
+		}
 	case reflect.Uint8:
 		v.SetUint(uint64(f.intOf(8)) & 0xff)
 	case reflect.Uint16:
@@ -900,10 +980,12 @@ func (f *cbFill) value(v reflect.Value) {
 		v.Set(m)
 	case reflect.Struct:
 		for i := 0; i < t.NumField(); i++ {
-			if t.Field(i).PkgPath != "" {
-				continue // unexported
+			if t.Field(i).PkgPath != "" && cbNotValue[t.Field(i).Name] {
+				continue
 			}
-			f.value(v.Field(i))
+			if fv := cbField(v, i); fv.IsValid() {
+				f.value(fv)
+			}
 		}
 	case reflect.Interface:
 		// left nil
@@ -989,7 +1071,7 @@ func (f *cbFill) records() Records {
 	return newLegacyRecords(f.messageSet(CompressionCodec(f.pick(4)), f.magic))
 }
 
-// copies the encoder-only parameter CompressionLevel (not on the wire) from the original onto the decoded value
+// copies the encoder-only parameters (CompressionLevel, SCRAM Password: not on the wire) from the original onto the decoded value
 func cbCarryLevels(dec, orig reflect.Value, depth int) {
 	if depth > 40 || !dec.IsValid() || !orig.IsValid() || dec.Type() != orig.Type() {
 		return
@@ -1001,21 +1083,27 @@ func cbCarryLevels(dec, orig reflect.Value, depth int) {
 		}
 		cbCarryLevels(dec.Elem(), orig.Elem(), depth+1)
 	case reflect.Struct:
-		if dec.CanAddr() {
-			if dp, ok := dec.Addr().Interface().(*ProduceRequest); ok {
-				cbCarryProduce(dp, orig.Addr().Interface().(*ProduceRequest))
-			}
+		if dec.Type() == cbTimeT || dec.Type() == cbBrokerT || !dec.CanAddr() || !orig.CanAddr() {
+			return
 		}
 		for i := 0; i < dec.NumField(); i++ {
 			fd := dec.Type().Field(i)
-			if fd.Name == "CompressionLevel" && dec.Field(i).CanSet() {
-				dec.Field(i).SetInt(orig.Field(i).Int())
+			if fd.PkgPath != "" && cbNotValue[fd.Name] {
 				continue
 			}
-			if fd.PkgPath != "" {
+			df, of := cbField(dec, i), cbField(orig, i)
+			if !df.IsValid() || !of.IsValid() {
 				continue
 			}
-			cbCarryLevels(dec.Field(i), orig.Field(i), depth+1)
+			if fd.Name == "CompressionLevel" {
+				df.SetInt(of.Int())
+				continue
+			}
+			if fd.Name == "Password" && df.Kind() == reflect.Slice { // SCRAM: never transmitted, only its salted hash
+				df.Set(of)
+				continue
+			}
+			cbCarryLevels(df, of, depth+1)
 		}
 	case reflect.Slice, reflect.Array:
 		for i := 0; i < dec.Len() && i < orig.Len(); i++ {
@@ -1028,24 +1116,56 @@ func cbCarryLevels(dec, orig reflect.Value, depth int) {
 				continue
 			}
 			d := dec.MapIndex(k)
-			if d.Kind() == reflect.Ptr || d.Kind() == reflect.Map || d.Kind() == reflect.Slice {
+			switch d.Kind() {
+			case reflect.Ptr, reflect.Map, reflect.Slice:
 				cbCarryLevels(d, o, depth+1)
+			case reflect.Struct: // map values are not addressable: carry on copies, store back
+				dc, oc := reflect.New(d.Type()).Elem(), reflect.New(o.Type()).Elem()
+				dc.Set(d)
+				oc.Set(o)
+				cbCarryLevels(dc, oc, depth+1)
+				dec.SetMapIndex(k, dc)
 			}
 		}
 	}
 }
 
-// ProduceRequest keeps its record sets in an unexported map
-func cbCarryProduce(dec, orig *ProduceRequest) {
-	for topic, parts := range dec.records {
-		for p, r := range parts {
-			o, ok := orig.records[topic][p]
-			if !ok {
-				continue
+// collection shape of the top-level fields (for cause-level matching of findings)
+func cbShape(x interface{}) string {
+	v := reflect.ValueOf(x)
+	for v.Kind() == reflect.Ptr || v.Kind() == reflect.Interface {
+		if v.IsNil() {
+			return "nil"
+		}
+		v = v.Elem()
+	}
+	if v.Kind() == reflect.Slice {
+		return "len=" + strconv.Itoa(v.Len())
+	}
+	if v.Kind() != reflect.Struct {
+		return ""
+	}
+	var parts []string
+	for i := 0; i < v.NumField(); i++ {
+		f := v.Field(i)
+		n := v.Type().Field(i).Name
+		switch f.Kind() {
+		case reflect.Slice, reflect.Map:
+			if f.IsNil() {
+				parts = append(parts, n+"=nil")
+			} else {
+				parts = append(parts, n+"="+strconv.Itoa(f.Len()))
 			}
-			cbCarryLevels(reflect.ValueOf(&r), reflect.ValueOf(&o), 0)
+		case reflect.Ptr:
+			if f.IsNil() {
+				parts = append(parts, n+"=nil")
+			}
+		}
+		if n == "Codec" {
+			parts = append(parts, fmt.Sprintf("Codec=%v", CompressionCodec(f.Int())))
 		}
 	}
+	return strings.Join(parts, ",")
 }
 
 func cbHasMap(t reflect.Type, seen map[reflect.Type]bool) bool {
@@ -1200,26 +1320,29 @@ func cbMakeBody(b cbBody, version int16, mode int, rng *rand.Rand) protocolBody 
 	}
 	f.value(reflect.ValueOf(body).Elem())
 	cbSetVersion(body, version)
-	if pr, ok := body.(*ProduceRequest); ok {
-		for i, n := 0, f.count(); i < n || i < 1; i++ {
-			topic := f.str() + strconv.Itoa(i)
-			for j, m := 0, f.count(); j < m || j < 1; j++ {
-				r := f.records()
-				if r.RecordBatch != nil {
-					pr.AddBatch(topic, int32(j), r.RecordBatch)
-				} else {
-					pr.AddSet(topic, int32(j), r.MsgSet)
+	switch x := body.(type) {
+	case *FetchResponse:
+		for _, parts := range x.Blocks {
+			for _, blk := range parts {
+				if blk != nil {
+					blk.Records = nil // deprecated alias of RecordsSet[0]
+					if !f.batch && len(blk.RecordsSet) > 1 {
+						blk.RecordsSet = blk.RecordsSet[:1] // legacy message sets are not delimited: two of them are one
+					}
 				}
 			}
 		}
-	}
-	if fr, ok := body.(*FetchResponse); ok {
-		for _, parts := range fr.Blocks {
-			for _, blk := range parts {
-				if blk != nil {
-					blk.Records = nil
-				}
+	case *JoinGroupRequest: // the API takes either form of the protocol list, not both
+		if len(x.GroupProtocols) > 0 && len(x.OrderedGroupProtocols) > 0 {
+			if mode%2 == 0 {
+				x.GroupProtocols = nil
+			} else {
+				x.OrderedGroupProtocols = nil
 			}
+		}
+	case *OffsetRequest: // replica ids are >= 0; negative means "a client"
+		if x.replicaID < 0 {
+			x.isReplicaIDSet = false
 		}
 	}
 	return body
@@ -1248,9 +1371,12 @@ func cbBodySubject(b cbBody, version int16, mode int, rng *rand.Rand, framed boo
 		s.kind = "response"
 	}
 	s.value = body
+	// what the library decodes into: allocateBody(key, version) for requests (request.decode), new(T) for responses (broker.go)
 	s.fresh = func() (decoder, versionedDecoder, encoder) {
 		n := b.mk()
-		cbSetVersion(n, version)
+		if !b.resp {
+			n = allocateBody(body.key(), version)
+		}
 		return nil, n, n
 	}
 	return s
